@@ -43,10 +43,9 @@ Proof.
     2:{ unfold sum_n. apply (sum_over_swap _ _ _ _ _ _ _ Vring). }
     apply sum_over_ext. intros a' _. unfold spec_ttm.
     rewrite <- app_assoc. cbn [app].
-    rewrite app_nth2 by lia. rewrite HP, Nat.sub_diag. cbn [nth].
-    rewrite (app_nth2 pre_s) by lia. rewrite Nat.sub_diag. cbn [nth].
+    rewrite !app_nth2 by lia. rewrite Nat.sub_diag. replace (Nat.sub (length pre) (length pre_s)) with 0 by lia. cbn [nth].
     unfold sum_n. rewrite <- (sum_over_scale_r _ _ _ _ _ _ _ Vring). apply sum_over_ext. intros x _.
-    rewrite <- HP. rewrite upd_app_mid. unfold cT. destruct tr; cbn [tprod]; ring.
+    rewrite upd_app_mid. unfold cT. destruct tr; cbn [tprod]; ring.
 Qed.
 
 (* every mode, from position 0 *)
@@ -54,5 +53,218 @@ Lemma ttm_all tr (Us : list (@matrix V)) (Js : list nat) (f : idx -> V) (s : sha
   length Js = length Us -> length s = length Us -> length i = length Us ->
   spec_ttm_list v0 vadd vmul f s (all_modes Js Us) tr i = So (allsubs s) (fun a => f a * cT tr Us a i).
 Proof. intros HJ HS HI. exact (ttm_all_gen tr Us Js f [] s [] i HJ HS eq_refl HI). Qed.
+
+Lemma ttm_all_shape_gen : forall (Us : list (@matrix V)) (Js : list nat) (pre rest : shape),
+  length Js = length Us -> length rest = length Us ->
+  ttm_list_shape (pre ++ rest) (combine (seq (length pre) (length Us)) (combine Js Us)) = pre ++ Js.
+Proof.
+  induction Us as [|U Us IH]; intros [|J Js] pre [|d rest] HJ HR; cbn [length] in *; try lia; [reflexivity|].
+  cbn [seq combine ttm_list_shape]. rewrite upd_app_mid.
+  replace (pre ++ J :: rest) with ((pre ++ [J]) ++ rest) by (now rewrite <- app_assoc).
+  replace (S (length pre)) with (length (pre ++ [J])) by (rewrite app_length; cbn; lia).
+  rewrite IH by lia. now rewrite <- app_assoc.
+Qed.
+
+Lemma ttm_all_shape (Us : list (@matrix V)) Js s : length Js = length Us -> length s = length Us ->
+  ttm_list_shape s (all_modes Js Us) = Js.
+Proof. intros HJ HS. exact (ttm_all_shape_gen Us Js [] s HJ HS). Qed.
+
+Lemma all_modes_range (Us : list (@matrix V)) Js n : n = length Us ->
+  Forall (fun p : nat * (nat * @matrix V) => fst p < n) (all_modes Js Us).
+Proof.
+  intros ->. apply Forall_forall. intros [k JU] H. unfold all_modes in H. apply in_combine_l in H.
+  apply in_seq in H. cbn [fst]. lia.
+Qed.
+
+(* ---- ttensor.full(): core.ttm(factors) is the array the Tucker tensor denotes ---- *)
+Theorem impl_full_t_correct (T : ttensor V) :
+  wf_dense (tcore T) -> length (dshape (tcore T)) = length (tfactors T) ->
+  let Y := impl_full_t v0 vadd vmul T in
+  dshape Y = tshape T /\ wf_dense Y /\ forall i, inb (tshape T) i = true -> den Y i = dent T i.
+Proof.
+  intros W HC. unfold impl_full_t.
+  set (Us := tfactors T) in *. set (cs := dshape (tcore T)) in *.
+  assert (HJ : length (map (@nrows V) Us) = length Us) by (now rewrite map_length).
+  destruct (ttm_seq_correct V v0 vadd vmul (all_modes (map (@nrows V) Us) Us) (tcore T) false W
+              (all_modes_range Us _ _ HC)) as (S1 & W1 & D1).
+  fold cs in S1, D1. rewrite (ttm_all_shape Us _ cs HJ HC) in S1, D1.
+  cbn zeta. split; [exact S1|]. split; [exact W1|].
+  intros i Hi. change (map (@nrows V) Us) with (tshape T) in D1. rewrite D1 by exact Hi.
+  rewrite ttm_all; auto.
+  2:{ apply inb_length in Hi. unfold tshape in Hi. now rewrite map_length in Hi. }
+  unfold den_t. rewrite Hi. reflexivity.
+Qed.
+
+(* ---- ttensor.innerprod(tensor), both sides of the size switch ---- *)
+Theorem impl_innerprod_t_dense_correct (T : ttensor V) (X : dense V) :
+  wf_dense (tcore T) -> length (dshape (tcore T)) = length (tfactors T) -> wf_dense X -> dshape X = tshape T ->
+  impl_innerprod_t_dense v0 vadd vmul T X = spec_innerprod v0 vadd vmul (dent T) (den X) (tshape T).
+Proof.
+  intros W HC WX HS. unfold impl_innerprod_t_dense.
+  set (Us := tfactors T) in *. set (cs := dshape (tcore T)) in *.
+  assert (HN : length (tshape T) = length Us) by (unfold tshape; now rewrite map_length).
+  destruct (size (tshape T) <? size cs).
+  - destruct (impl_full_t_correct T W HC) as (S1 & W1 & D1).
+    rewrite (impl_innerprod_dense_correct V v0 vadd vmul _ X W1 WX) by congruence.
+    rewrite S1. unfold spec_innerprod. apply sum_over_ext. intros i Hi. apply in_allsubs in Hi. now rewrite D1.
+  - assert (HF : Forall (fun p : nat * (nat * @matrix V) => fst p < length (dshape X)) (all_modes cs Us)).
+    { apply all_modes_range. rewrite HS. exact HN. }
+    destruct (ttm_seq_correct V v0 vadd vmul (all_modes cs Us) X true WX HF) as (S1 & W1 & D1).
+    rewrite HS in S1, D1. rewrite (ttm_all_shape Us cs (tshape T) HC HN) in S1, D1.
+    rewrite (impl_innerprod_dense_correct V v0 vadd vmul _ (tcore T) W1 W) by exact S1.
+    rewrite S1. unfold spec_innerprod.
+    transitivity (So (allsubs cs) (fun c => So (allsubs (tshape T)) (fun a => den X a * tp Us a c * den (tcore T) c))).
+    { apply sum_over_ext. intros c Hc. apply in_allsubs in Hc. rewrite D1 by exact Hc.
+      rewrite ttm_all; auto.
+      - unfold cT. now rewrite (sum_over_scale_r _ _ _ _ _ _ _ Vring).
+      - apply inb_length in Hc. fold cs in Hc. lia. }
+    rewrite (sum_over_swap _ _ _ _ _ _ _ Vring). apply sum_over_ext. intros a Ha. apply in_allsubs in Ha.
+    unfold den_t. rewrite Ha. fold cs Us. rewrite <- (sum_over_scale_r _ _ _ _ _ _ _ Vring).
+    apply sum_over_ext. intros c _. ring.
+Qed.
+
+(* ---- ttensor.norm()^2, both sides of the size switch ---- *)
+Lemma sum_tprod_tprod : forall (As Cs : list (@matrix V)) (c a : idx),
+  length Cs = length As -> length c = length As -> length a = length As ->
+  (forall k, k < length As -> mget v0 (nth k Cs []) (nth k c 0) (nth k a 0) =
+     Sn (nrows (nth k As [])) (fun x => mget v0 (nth k As []) x (nth k c 0) * mget v0 (nth k As []) x (nth k a 0))) ->
+  So (allsubs (map (@nrows V) As)) (fun j => tp As j c * tp As j a) = tp Cs c a.
+Proof.
+  induction As as [|A As IH]; intros [|C Cs] [|y c] [|z a] HCs Hc Ha H; cbn [length] in *; try lia.
+  - cbn. ring.
+  - cbn [map]. rewrite (sum_allsubs_cons V v0 v1 vadd vmul vsub vopp Vring).
+    cbn [tprod]. pose proof (H 0 ltac:(lia)) as H0. cbn [nth] in H0. rewrite H0.
+    rewrite <- (IH Cs c a) by (try lia; intros k Hk; apply (H (S k)); lia).
+    unfold nrows at 1. unfold sum_n. rewrite <- (sum_over_scale_r _ _ _ _ _ _ _ Vring).
+    apply sum_over_ext. intros x _. rewrite <- (sum_over_scale_l _ _ _ _ _ _ _ Vring).
+    apply sum_over_ext. intros j _. cbn [tprod]. ring.
+Qed.
+
+Theorem impl_normsq_t_correct (T : ttensor V) :
+  wf_dense (tcore T) -> length (dshape (tcore T)) = length (tfactors T) ->
+  impl_normsq_t v0 vadd vmul T = spec_normsq v0 vadd vmul (dent T) (tshape T).
+Proof.
+  intros W HC. unfold impl_normsq_t.
+  set (Us := tfactors T) in *. set (cs := dshape (tcore T)) in *.
+  assert (HN : length (tshape T) = length Us) by (unfold tshape; now rewrite map_length).
+  destruct (size cs <? size (tshape T)).
+  - set (G := fun Uc : @matrix V * nat => mm v0 vadd vmul (fst Uc) (fst Uc) (snd Uc) (nrows (fst Uc)) (snd Uc) true).
+    set (Vs := map G (combine Us cs)).
+    assert (HLV : length Vs = length Us) by (unfold Vs; rewrite map_length, combine_length, HC; apply Nat.min_id).
+    assert (HnV : forall k, k < length Us -> nth k Vs [] = G (nth k Us [], nth k cs 0)).
+    { intros k Hk. unfold Vs. rewrite (nth_indep _ [] (G ([], 0))) by (rewrite map_length, combine_length, HC, Nat.min_id; exact Hk).
+      rewrite (map_nth G). now rewrite combine_nth by (symmetry; exact HC). }
+    assert (HF : Forall (fun p : nat * (nat * @matrix V) => fst p < length (dshape (tcore T))) (all_modes cs Vs)).
+    { apply all_modes_range. fold cs. lia. }
+    destruct (ttm_seq_correct V v0 vadd vmul (all_modes cs Vs) (tcore T) false W HF) as (S1 & W1 & D1).
+    fold cs in S1, D1. rewrite (ttm_all_shape Vs cs cs ltac:(lia) ltac:(lia)) in S1, D1.
+    rewrite (impl_innerprod_dense_correct V v0 vadd vmul _ (tcore T) W1 W) by exact S1.
+    rewrite S1. unfold spec_innerprod, spec_normsq.
+    transitivity (So (allsubs cs) (fun c => So (allsubs cs) (fun a => den (tcore T) a * tp Vs c a * den (tcore T) c))).
+    { apply sum_over_ext. intros c Hc. apply in_allsubs in Hc. rewrite D1 by exact Hc.
+      rewrite ttm_all; auto; try lia.
+      - unfold cT. now rewrite (sum_over_scale_r _ _ _ _ _ _ _ Vring).
+      - apply inb_length in Hc. lia. }
+    transitivity (So (allsubs (tshape T)) (fun i => So (allsubs cs) (fun c => So (allsubs cs)
+                    (fun a => den (tcore T) a * (tp Us i c * tp Us i a) * den (tcore T) c)))).
+    2:{ apply sum_over_ext. intros i Hi. apply in_allsubs in Hi. unfold den_t. rewrite Hi. fold cs Us.
+        rewrite <- (sum_over_scale_l _ _ _ _ _ _ _ Vring). apply sum_over_ext. intros c _.
+        rewrite <- (sum_over_scale_r _ _ _ _ _ _ _ Vring). apply sum_over_ext. intros a _. ring. }
+    symmetry. rewrite (sum_over_swap _ _ _ _ _ _ _ Vring). apply sum_over_ext. intros c Hc. apply in_allsubs in Hc.
+    rewrite (sum_over_swap _ _ _ _ _ _ _ Vring). apply sum_over_ext. intros a Ha. apply in_allsubs in Ha.
+    rewrite <- (sum_tprod_tprod Us Vs c a).
+    + unfold tshape. fold Us. rewrite <- (sum_over_scale_l _ _ _ _ _ _ _ Vring), <- (sum_over_scale_r _ _ _ _ _ _ _ Vring). reflexivity.
+    + exact HLV.
+    + apply inb_length in Hc. lia.
+    + apply inb_length in Ha. lia.
+    + intros k Hk. rewrite HnV by exact Hk. unfold G. cbn [fst snd]. apply mget_mm.
+      * apply c02_inb_nth in Hc as [_ Hkk]. apply Hkk. lia.
+      * apply c02_inb_nth in Ha as [_ Hkk]. apply Hkk. lia.
+  - destruct (impl_full_t_correct T W HC) as (S1 & W1 & D1).
+    rewrite (impl_normsq_dense_correct V v0 vadd vmul _ W1). rewrite S1.
+    unfold spec_normsq, spec_innerprod. apply sum_over_ext. intros i Hi. apply in_allsubs in Hi. now rewrite D1.
+Qed.
+
+(* ---- ttensor.innerprod(ttensor) ---- *)
+Lemma sum_tprod_tprod2 : forall (As Bs Cs : list (@matrix V)) (c a : idx),
+  length Bs = length As -> length Cs = length As -> length c = length As -> length a = length As ->
+  (forall k, k < length As -> mget v0 (nth k Cs []) (nth k c 0) (nth k a 0) =
+     Sn (nrows (nth k As [])) (fun x => mget v0 (nth k As []) x (nth k c 0) * mget v0 (nth k Bs []) x (nth k a 0))) ->
+  So (allsubs (map (@nrows V) As)) (fun j => tp As j c * tp Bs j a) = tp Cs c a.
+Proof.
+  induction As as [|A As IH]; intros [|B Bs] [|C Cs] [|y c] [|z a] HB HCs Hc Ha H; cbn [length] in *; try lia.
+  - cbn. ring.
+  - cbn [map]. rewrite (sum_allsubs_cons V v0 v1 vadd vmul vsub vopp Vring).
+    cbn [tprod]. pose proof (H 0 ltac:(lia)) as H0. cbn [nth] in H0. rewrite H0.
+    rewrite <- (IH Bs Cs c a) by (try lia; intros k Hk; apply (H (S k)); lia).
+    unfold nrows at 1. unfold sum_n. rewrite <- (sum_over_scale_r _ _ _ _ _ _ _ Vring).
+    apply sum_over_ext. intros x _. rewrite <- (sum_over_scale_l _ _ _ _ _ _ _ Vring).
+    apply sum_over_ext. intros j _. cbn [tprod]. ring.
+Qed.
+
+Lemma impl_innerprod_tt_core_correct (T T' : ttensor V) :
+  wf_dense (tcore T) -> wf_dense (tcore T') ->
+  length (dshape (tcore T)) = length (tfactors T) -> length (dshape (tcore T')) = length (tfactors T') ->
+  tshape T = tshape T' ->
+  impl_innerprod_tt_core v0 vadd vmul T T' = spec_innerprod v0 vadd vmul (dent T) (dent T') (tshape T).
+Proof.
+  intros W W' HC HC' HS. unfold impl_innerprod_tt_core.
+  set (Us := tfactors T) in *. set (Us' := tfactors T') in *.
+  set (cs := dshape (tcore T)) in *. set (cs' := dshape (tcore T')) in *.
+  assert (HN : length (tshape T) = length Us) by (unfold tshape; now rewrite map_length).
+  assert (HN' : length Us' = length Us).
+  { assert (E : length (tshape T') = length Us') by (unfold tshape; now rewrite map_length). rewrite <- HS in E. lia. }
+  set (G := fun UU : @matrix V * @matrix V * (nat * nat) =>
+              mm v0 vadd vmul (fst (fst UU)) (snd (fst UU)) (fst (snd UU)) (nrows (fst (fst UU))) (snd (snd UU)) true).
+  set (Ws := map G (combine (combine Us Us') (combine cs cs'))).
+  assert (HLW : length Ws = length Us).
+  { unfold Ws. rewrite map_length, !combine_length, HC, HC', HN', !Nat.min_id. reflexivity. }
+  assert (HnW : forall k, k < length Us -> nth k Ws [] = G ((nth k Us [], nth k Us' []), (nth k cs 0, nth k cs' 0))).
+  { intros k Hk. unfold Ws. rewrite (nth_indep _ [] (G (([], []), (0, 0)))) by (rewrite map_length, !combine_length, HC, HC', HN', !Nat.min_id; exact Hk).
+    rewrite (map_nth G). rewrite combine_nth by (rewrite !combine_length, HC, HC', HN', !Nat.min_id; reflexivity).
+    rewrite (combine_nth Us Us') by (symmetry; exact HN'). rewrite (combine_nth cs cs') by (rewrite HC, HC'; symmetry; exact HN'). reflexivity. }
+  assert (HF : Forall (fun p : nat * (nat * @matrix V) => fst p < length (dshape (tcore T'))) (all_modes cs Ws)).
+  { apply all_modes_range. fold cs'. lia. }
+  destruct (ttm_seq_correct V v0 vadd vmul (all_modes cs Ws) (tcore T') false W' HF) as (S1 & W1 & D1).
+  fold cs' in S1, D1. rewrite (ttm_all_shape Ws cs cs' ltac:(lia) ltac:(lia)) in S1, D1.
+  rewrite (impl_innerprod_dense_correct V v0 vadd vmul (tcore T) _ W W1) by (symmetry; exact S1).
+  fold cs. unfold spec_innerprod.
+  transitivity (So (allsubs cs) (fun c => So (allsubs cs') (fun a => den (tcore T) c * (den (tcore T') a * tp Ws c a)))).
+  { apply sum_over_ext. intros c Hc. apply in_allsubs in Hc. rewrite D1 by exact Hc.
+    rewrite ttm_all; auto; try lia.
+    - unfold cT. now rewrite (sum_over_scale_l _ _ _ _ _ _ _ Vring).
+    - apply inb_length in Hc. lia. }
+  transitivity (So (allsubs (tshape T)) (fun i => So (allsubs cs) (fun c => So (allsubs cs')
+                  (fun a => den (tcore T) c * (den (tcore T') a * (tp Us i c * tp Us' i a)))))).
+  2:{ apply sum_over_ext. intros i Hi. apply in_allsubs in Hi. unfold den_t. rewrite <- HS, Hi. fold cs cs' Us Us'.
+      rewrite <- (sum_over_scale_r _ _ _ _ _ _ _ Vring). apply sum_over_ext. intros c _.
+      rewrite <- (sum_over_scale_l _ _ _ _ _ _ _ Vring). apply sum_over_ext. intros a _. ring. }
+  symmetry. rewrite (sum_over_swap _ _ _ _ _ _ _ Vring). apply sum_over_ext. intros c Hc. apply in_allsubs in Hc.
+  rewrite (sum_over_swap _ _ _ _ _ _ _ Vring). apply sum_over_ext. intros a Ha. apply in_allsubs in Ha.
+  rewrite <- (sum_tprod_tprod2 Us Us' Ws c a).
+  - unfold tshape. fold Us. rewrite <- !(sum_over_scale_l _ _ _ _ _ _ _ Vring). reflexivity.
+  - exact HN'.
+  - exact HLW.
+  - apply inb_length in Hc. lia.
+  - apply inb_length in Ha. lia.
+  - intros k Hk. rewrite HnW by exact Hk. unfold G. cbn [fst snd]. apply mget_mm.
+    + apply c02_inb_nth in Hc as [_ Hkk]. apply Hkk. lia.
+    + apply c02_inb_nth in Ha as [_ Hkk]. apply Hkk. lia.
+Qed.
+
+Lemma spec_innerprod_comm (f g : idx -> V) s : spec_innerprod v0 vadd vmul f g s = spec_innerprod v0 vadd vmul g f s.
+Proof. unfold spec_innerprod. apply sum_over_ext. intros i _. ring. Qed.
+
+Theorem impl_innerprod_tt_correct (T T' : ttensor V) :
+  wf_dense (tcore T) -> wf_dense (tcore T') ->
+  length (dshape (tcore T)) = length (tfactors T) -> length (dshape (tcore T')) = length (tfactors T') ->
+  tshape T = tshape T' ->
+  impl_innerprod_tt v0 vadd vmul T T' = spec_innerprod v0 vadd vmul (dent T) (dent T') (tshape T).
+Proof.
+  intros W W' HC HC' HS. unfold impl_innerprod_tt.
+  destruct (size (dshape (tcore T')) <? size (dshape (tcore T))).
+  - rewrite impl_innerprod_tt_core_correct by auto. rewrite <- HS. apply spec_innerprod_comm.
+  - now apply impl_innerprod_tt_core_correct.
+Qed.
 
 End P.
